@@ -13,7 +13,7 @@ JVM1 = ["-XX:ActiveProcessorCount=2", "-XX:TieredStopAtLevel=1"]
 
 NEED = ["session-ok", "session-fail-fee-kept", "reject-over-declared-limit", "reject-expired", "reject-revoked-or-absent",
         "reject-not-allowed", "reject-auth-message", "fail-deposit-over-limit", "refund-in-session-tx", "period-reset",
-        "second-session-independent", "create-ok", "create-duplicate", "revoke-ok", "revokeall", "time"]
+        "second-session-independent", "master-tx", "create-ok", "create-duplicate", "revoke-ok", "revokeall", "time"]
 
 
 def classes(beh, acc):
@@ -51,6 +51,8 @@ def classes(beh, acc):
                     ks.add("reject-over-declared-limit")
             if st["sess"][s]["exists"] and before["exists"] and st["sess"][s]["reset"] > before["reset"]:
                 ks.add("period-reset")
+        elif act == "MasterTx":
+            ks.add("master-tx")
         elif act == "CreateSession":
             ks.add("create-ok" if reply == "ok" else "create-duplicate")
             if reply == "ok":
@@ -79,9 +81,9 @@ def run(ctx):
     jobs = {"e": ("Session_qe.cfg" if quick else "Session_te.cfg", "check", None)}
     if not quick:
         jobs["eb"] = ("Session_teb.cfg", "check", None)
-        jobs["t"] = ("Session_t.cfg", "check", None)
-    jobs["s1"] = ("Session_sim.cfg", "simulate", 60 if quick else 1500)
-    jobs["s2"] = ("Session_simb.cfg", "simulate", 60 if quick else 1500)
+        jobs["e4"] = ("Session_t4e.cfg", "check", None)      # 3 steps after setup: exhaustive in the model, sampled for replay
+    jobs["s1"] = ("Session_sim.cfg", "simulate", 40 if quick else 1000)
+    jobs["s2"] = ("Session_simb.cfg", "simulate", 40 if quick else 1000)
     out, errs = {}, {}
     lock = threading.Lock()
     orig = ctx.scratch_dir
@@ -114,7 +116,11 @@ def run(ctx):
     for k in ("e", "eb"):
         if k in out:
             edges += vlib.dedup_prefix(out[k].traces)
-    ctx.cov["edges_emitted"] = sum(len(out[k].traces) for k in ("e", "eb") if k in out)
+    if "e4" in out:
+        deep = [b for b in vlib.dedup_prefix(out["e4"].traces) if len(b) == 4]
+        random.Random(ctx.seed).shuffle(deep)
+        edges += deep[:9000]
+    ctx.cov["edges_emitted"] = sum(len(out[k].traces) for k in ("e", "eb", "e4") if k in out)
     sims = out["s1"].traces + out["s2"].traces
     if quick:
         # a few behaviours of every (action, message kinds, reply) class and a seeded sample of the rest
@@ -126,7 +132,21 @@ def run(ctx):
             k = (s["act"], s.get("s"), s.get("fee"), tuple(m["k"] for m in s.get("msgs", [])), s["reply"])
             per[k] = per.get(k, 0) + 1
             (first if per[k] <= 1 else later).append(b)
-        edges = first + later[:max(0, 450 - len(first))]
+        edges = first + later[:max(0, 320 - len(first))]
+        # every required step class that the edge graph offers is represented in the sample
+        have = {}
+        for b in edges + sims:
+            classes(b, have)
+        for need in NEED:
+            if have.get(need):
+                continue
+            for b in later:
+                one = {}
+                classes(b, one)
+                if one.get(need):
+                    edges.append(b)
+                    classes(b, have)
+                    break
     ctx.cov["edges_replayed"] = len(edges)
     seen = {}
     for b in edges + sims:
@@ -147,5 +167,5 @@ def run(ctx):
         "'within one spend period' is read with the code's documented period rule (a new period starts at the first counted spend at or after start + period); sliding windows are not claimed",
         "1 unit = 10 000 ugnot = 100 bytes of realm storage at the default storage price; the driver calibrates (and aborts as inconclusive otherwise) that growth and shrinkage of a realm object lock / refund exactly that",
         "every transaction pays a positive fee (a zero fee cannot be expressed on the wire); single-signer session transactions only; bank.MsgMultiSend cannot travel in a transaction; MsgRun is not generated",
-        "quick tier replays a stratified seeded sample of the edges of the 2-step graph plus simulated 8-step histories; the thorough tier replays every edge",
+        "quick tier replays a stratified seeded sample of the edges of the 2-step graph plus simulated 8-step histories; the thorough tier replays every edge of the 2-step graphs, a seeded sample of 9000 edges of the 3-step graph (model-checked exhaustively) and 2000 simulated histories",
     ]
